@@ -76,6 +76,7 @@ func c13Oracle(c *ExecCase) (msg string, nTop int, thunks int) {
 	for _, pc := range caches {
 		viaCache(pc, revText, build.WithSession(context.Background(), &build.Session{W: c.World}))
 	}
+	var twin *build.Built
 	for rep := 0; rep < c13Repeats; rep++ {
 		var mu sync.Mutex
 		var events []string
@@ -97,7 +98,21 @@ func c13Oracle(c *ExecCase) (msg string, nTop int, thunks int) {
 		case 1:
 			res = graphql.Execute(graphql.ExecuteParams{Schema: b.Schema, AST: doc, OperationName: c.OpName, Args: c.goVars(), Context: ctx})
 		default:
-			res = graphql.ExecutePlan(plan, graphql.ExecuteParams{Schema: b.Schema, OperationName: c.OpName, Args: c.goVars(), Context: ctx})
+			// a plan is bound to the schema it was made for: ExecuteParams.Schema is documented as not consulted, so it may
+			// be that schema, left at its zero value, or another schema value of the same shape
+			switch (rep / 5) % 3 {
+			case 0:
+				res = graphql.ExecutePlan(plan, graphql.ExecuteParams{Schema: b.Schema, OperationName: c.OpName, Args: c.goVars(), Context: ctx})
+			case 1:
+				res = graphql.ExecutePlan(plan, graphql.ExecuteParams{OperationName: c.OpName, Args: c.goVars(), Context: ctx})
+			default:
+				if twin == nil {
+					twin, _ = build.New(c.Schema, c.World, build.Options{})
+				}
+				if twin != nil {
+					res = graphql.ExecutePlan(plan, graphql.ExecuteParams{Schema: twin.Schema, OperationName: c.OpName, Args: c.goVars(), Context: ctx})
+				}
+			}
 		}
 		_ = res
 		last := -1
